@@ -43,8 +43,9 @@ structure Chips where
   panel : Nat → Bool
   powered : Nat → Bool
   asleep : Nat → Bool
+  partialOn : Nat → Bool     -- between PartialIn 0x91 and PartialOut 0x92 (C02: where image data lands)
 
-def Chips.blank : Chips := ⟨fun _ => false, fun _ => false, fun _ => false, fun _ => false⟩
+def Chips.blank : Chips := ⟨fun _ => false, fun _ => false, fun _ => false, fun _ => false, fun _ => false⟩
 
 /-- opcode `b` sent with control word `c`; a sleeping chip ignores it -/
 def Chips.cmd (s : Chips) (c : Nat) (b : UInt8) : Chips :=
@@ -53,6 +54,8 @@ def Chips.cmd (s : Chips) (c : Nat) (b : UInt8) : Chips :=
   else if b = 0x61 then { s with res := fun k => (sel c k && !s.asleep k) || s.res k }
   else if b = 0x00 then { s with panel := fun k => (sel c k && !s.asleep k) || s.panel k }
   else if b = 0x07 then { s with asleep := fun k => sel c k || s.asleep k, powered := fun k => !sel c k && s.powered k }
+  else if b = 0x91 then { s with partialOn := fun k => sel c k || s.partialOn k }
+  else if b = 0x92 then { s with partialOn := fun k => !sel c k && s.partialOn k }
   else s
 
 def Chips.act (s : Chips) : BAct → Chips
